@@ -179,6 +179,10 @@ pub fn compare(exp: &Expect, obs: &Result<(String, Defs), ObsErr>) -> Diff {
             let got: Vec<&str> = lexer::tokens(text);
             // no dead payload anywhere
             for d in &exp.dead_payload {
+                // a file included twice can have a branch dead in one inclusion and live in the other
+                if exp.tokens.iter().any(|t| t == d) {
+                    continue;
+                }
                 if got.iter().any(|g| g == d) {
                     return Diff::DeadPayload(format!("token {} of a discarded branch appears in the output", d));
                 }
